@@ -48,16 +48,17 @@ func (f *Formatter) formatConditionLines(expr ast.Expression) ([]string, bool, b
 				lines = append(lines, extraIndent+line)
 			}
 			lines = append(lines, ")")
-			return lines, true, true
+			return f.withConditionComments(t, lines), true, true
 		}
 		inner := strings.TrimSpace(f.formatExpression(t.Right).String())
-		return []string{"(" + inner + ")"}, false, false
+		lines := f.withConditionComments(t, []string{"(" + inner + ")"})
+		return lines, len(lines) > 1, false
 	case *ast.PrefixExpression:
 		// Handle negation and other prefix operators containing compound conditions.
 		rightLines, rightMultiline, rightPreserve := f.formatConditionLines(t.Right)
-		if rightMultiline {
+		if rightMultiline && !isCommentLine(rightLines[0]) {
 			rightLines[0] = t.Operator + rightLines[0]
-			return rightLines, true, rightPreserve
+			return f.withConditionComments(t, rightLines), true, rightPreserve
 		}
 	case *ast.InfixExpression:
 		// Only split compound boolean operators; other infix expressions stay inline.
@@ -91,16 +92,56 @@ func (f *Formatter) formatConditionLines(expr ast.Expression) ([]string, bool, b
 				continue
 			}
 			if i < len(ops) {
-				opLines[len(opLines)-1] = opLines[len(opLines)-1] + " " + ops[i]
+				// The operator follows the operand, not a comment line after it
+				last := len(opLines) - 1
+				for last > 0 && isCommentLine(opLines[last]) {
+					last--
+				}
+				opLines[last] = opLines[last] + " " + ops[i]
 			}
 			lines = append(lines, opLines...)
 			preserve = preserve || opPreserve
 		}
-		return lines, true, preserve
+		return f.withConditionComments(expr, lines), true, preserve
 	}
 
 	line := strings.TrimSpace(f.formatExpression(expr).String())
 	return []string{line}, false, false
+}
+
+// isCommentLine reports whether the condition line only holds a line comment
+func isCommentLine(line string) bool {
+	line = strings.TrimSpace(line)
+	return strings.HasPrefix(line, "#") || strings.HasPrefix(line, "//")
+}
+
+// withConditionComments adds the leading and trailing comments of the node itself to the lines
+// that have been built from its child nodes. Line comments stand on their own line.
+func (f *Formatter) withConditionComments(expr ast.Expression, lines []string) []string {
+	meta := expr.GetMeta()
+	var leading []string
+	var prefix string
+	for i := range meta.Leading {
+		v := f.formatComment(meta.Leading[i:i+1], "", 0)
+		prefix = strings.TrimSpace(prefix + " " + v)
+		if isCommentLine(v) {
+			leading = append(leading, prefix)
+			prefix = ""
+		}
+	}
+	if prefix != "" {
+		lines[0] = prefix + " " + lines[0]
+	}
+	lines = append(leading, lines...)
+	for i := range meta.Trailing {
+		v := f.formatComment(meta.Trailing[i:i+1], "", 0)
+		if isCommentLine(v) || isCommentLine(lines[len(lines)-1]) {
+			lines = append(lines, v)
+		} else {
+			lines[len(lines)-1] += " " + v
+		}
+	}
+	return lines
 }
 
 // formatConditionExpression returns a chunked condition string and flags indicating multiline/preserve.
